@@ -47,6 +47,8 @@ def run(seed, checks):
                     fired.append("?" + repr(ex))
                 if not fired:
                     fired = [l for l in out.splitlines() if l.startswith("VIOLATION")]
+            if rc not in (0, 1):
+                fired += [l[:300] for l in out.splitlines() if l.startswith("CHECK-BROKEN")]
             res[c] = {"exit": rc, "fired": fired}
     finally:
         sh(f"git worktree remove --force {wt}", REPO)
@@ -69,13 +71,13 @@ def main():
             print(seed, "caught by", caught, "broken", broken, res.get("error", ""))
             sys.stdout.flush()
     json.dump(out, open(os.path.join(VERIF, "seeded", "MATRIX.json"), "w"), indent=1, sort_keys=True)
-    lines = ["# Seeded changes x checks", "", "Produced by tools/seed_matrix.py at /repo HEAD " + sh("git rev-parse --short HEAD", REPO)[1].strip() + ". Every claimed check (quick tier) was run against every seeded change; a check not listed for a change exited 0 on it.", "", "| seeded change (property it breaks) | checks that report it | obligations that fire |", "|---|---|---|"]
+    lines = ["# Seeded changes x checks", "", "Produced by tools/seed_matrix.py at /repo HEAD " + sh("git rev-parse --short HEAD", REPO)[1].strip() + ". Every claimed check (quick tier) was run against every seeded change; a check not listed for a change exited 0 on it (exit 1 = VIOLATION; exit 2 = CHECK-BROKEN, e.g. an anchored construct is gone and the rule refuses to decide — listed as well).", "", "| seeded change (property it breaks) | checks that report it | obligations that fire |", "|---|---|---|"]
     for seed in sorted(out):
         res = out[seed]
         if "error" in res:
             lines.append(f"| {seed} | — | {res['error']} |")
             continue
-        caught = [c for c, v in res.items() if v["exit"] == 1]
+        caught = [c for c, v in res.items() if v["exit"] in (1, 2)]
         fired = []
         for c in caught:
             for k in res[c]["fired"]:
